@@ -297,3 +297,12 @@ package binaryheap
 //@ func New
 //@   modifies nothing
 //@   ensures [C06 C15 C17] fresh(result) && Inv(result) && N(result) == 0 && fresh(result.list)
+
+//@ -- String: starts with the container's name; reads only (C15, C18)
+//@ func Heap.String
+//@   requires Inv(heap)
+//@   modifies nothing
+//@   ensures [C15 C17 C18] hasPrefix(result, "BinaryHeap")
+//@   loop 1:
+//@     invariant ItInv(it) && fresh(it) && it.heap == heap && (isnil(values) || fresh(arr(values)))
+//@     decreases N(heap) - it.index
